@@ -19,7 +19,8 @@ Used(c) == \E i \in 1..Len(hist) : hist[i].c = c
 Rec(l, g) == [a |-> l[1], c |-> IF Len(l) >= 2 THEN l[2] ELSE "none",
               ch |-> IF Len(l) >= 3 THEN l[3] ELSE "none", v |-> IF Len(l) >= 4 THEN l[4] ELSE 0,
               exp |-> [c \in Conn |-> Cardinality(g[c])]]
-HNext == /\ GNext /\ SeenNext /\ pre' = SeenView
+\* the racing pair of writes is replayed by a dedicated history (two goroutines), not as a step of the generated words
+HNext == /\ GNext /\ SeenNext /\ pre' = SeenView /\ last'[1] # "RemoteRace"
          /\ (last'[2] = "c2" => Used("c1")) /\ (last'[2] = "c3" => Used("c2"))
          /\ hist' = Append(hist, Rec(last', got'))
          /\ bad' = (bad \/ ~ExactlyOnceStep)
